@@ -330,8 +330,56 @@ def adsorb(rng, smi, metal='Pt', kmax=4):
         return None
 
 
+def join(rng, a, b, spacer=None):
+    """Link molecule a and molecule b through a new single bond between an
+    H-bearing carbon of each (optionally through a CH2 spacer): the result
+    contains both structural motifs in one connected molecule."""
+    ma, mb = Chem.MolFromSmiles(a), Chem.MolFromSmiles(b)
+    if ma is None or mb is None:
+        return None
+
+    def sites(m):
+        return [x.GetIdx() for x in m.GetAtoms() if x.GetSymbol() == 'C' and
+                not x.GetIsAromatic() and x.GetTotalNumHs() > 0 and
+                x.GetNumRadicalElectrons() == 0]
+    sa, sb = sites(ma), sites(mb)
+    if not sa or not sb:
+        return None
+    combo = Chem.RWMol(Chem.CombineMols(ma, mb))
+    i = rng.choice(sa)
+    j = rng.choice(sb) + ma.GetNumAtoms()
+    ends = [i, j]
+    hcount = {idx: combo.GetAtomWithIdx(idx).GetTotalNumHs() for idx in ends}
+    if spacer:
+        k = combo.AddAtom(Chem.Atom('C'))
+        combo.AddBond(i, k, Chem.BondType.SINGLE)
+        combo.AddBond(k, j, Chem.BondType.SINGLE)
+    else:
+        combo.AddBond(i, j, Chem.BondType.SINGLE)
+    for idx in ends:
+        at = combo.GetAtomWithIdx(idx)
+        at.SetNoImplicit(True)
+        at.SetNumExplicitHs(hcount[idx] - 1)
+    try:
+        Chem.SanitizeMol(combo)
+        out = Chem.MolToSmiles(combo)
+        return out if Chem.MolFromSmiles(out) is not None else None
+    except Exception:
+        return None
+
+
+MOTIFS = [r'C/C=C\C', r'C/C=C/C', 'CC=C', 'CC(C)=C', 'CC(C)=CC',
+          r'C/C=C\C(C)(C)C', 'CC=CC(C)(C)C', 'C=CC=C', r'C/C=C\C=C',
+          'CC(C)C', 'CC(C)(C)C', 'CC(C)C(C)C', 'C1CC1', 'C1CCC1', 'C1CCCC1',
+          'C1=CCCC1', 'C1CO1', 'COC', 'CC(C)OC(C)C', 'CC(=O)C', 'CC(=O)OC',
+          'Cc1ccccc1', 'Cc1ccccc1C', 'CC#C', 'CC=C=C', 'CCO', 'CC=O',
+          'C[Pt]', 'CC([Pt])[Pt]', 'CC([Pt])([Pt])[Pt]', 'CC([Pt])=O',
+          'CC(=O)O[Pt]', 'CO[Pt]', '[Pt]CC[Pt]', 'CC([Pt])O', 'C[CH2]',
+          'CC(C)=C(C)C', r'C/C(C)=C\C']
+
+
 def pool(seed, n_random=60, n_ads=40, metal='Pt', nitrogen=False,
-         max_heavy=10):
+         max_heavy=10, n_joined=0):
     """Curated + random + adsorbate pool, canonical and de-duplicated."""
     rng = random.Random('pool:%s:%s:%s:%s' % (seed, n_random, n_ads, metal))
     out = []
@@ -365,6 +413,13 @@ def pool(seed, n_random=60, n_ads=40, metal='Pt', nitrogen=False,
         tries += 1
         src = rng.choice(base + CURATED[:90])
         push(adsorb(rng, src, metal=metal))
+    tries = 0
+    n0 = len(out)
+    while len(out) - n0 < n_joined and tries < n_joined * 10:
+        tries += 1
+        a, b = rng.choice(MOTIFS), rng.choice(MOTIFS)
+        push(join(rng, swap_metal(a, metal), swap_metal(b, metal),
+                  spacer=rng.random() < 0.4))
     return out
 
 
